@@ -12,7 +12,7 @@ def cpPart (c : Chan) : Nat × Nat × Option Nat × Option Nat × Option Nat × 
 theorem cpPart_validate (c : Chan) (n info : Nat) (sv : SigFact) (pk : Bool) :
     cpPart (validate c n info sv pk).c = cpPart c := by
   unfold validate fail cpPart
-  dsimp only
+  try dsimp only
   repeat' split
   all_goals rfl
 
